@@ -15,7 +15,7 @@ Proof. exact fixed_sound_lemma. Qed.
    CR LF) - is read back as exactly the records it holds, complete, in order and without an error. Together with
    fixed_sound: reading is lossless. *)
 Theorem fixed_complete : forall d ws rd, Forall (fun w => 1 <= w) ws -> ws <> [] ->
-  Forall (row_ok ws) (map fst rd) -> delims_ok d rd -> greedy rd ->
+  Forall (row_ok ws) (map fst rd) -> delims_ok d rd -> (d = LdAny -> greedy rd) ->
   fixed_rows d ws (render rd) = Some (map fst rd, true).
 Proof. exact fixed_complete_lemma. Qed.
 
